@@ -299,6 +299,10 @@ func (p *Parser) parseSwitch() (ast.Stmt, error) {
 			}
 			stmt.Cases = append(stmt.Cases, cs)
 		case ast.KeywordDefault:
+			// a switch has at most one default: a second one would silently replace the first
+			if stmt.Default != nil {
+				return nil, fmt.Errorf("ln%v: multiple defaults in switch", n.Line)
+			}
 			// colon, then read until we hit next case
 			if p.peek().Typ != ast.ItemColon {
 				return nil, fmt.Errorf("ln%v: expecting : after default, got %v", n.Line, n.Val)
